@@ -103,6 +103,10 @@ def deep_chain(depth, with_missing):
 
 # programs with a hand-derived answer (the search order applied by hand); also compared with PanCore
 EXPECT = [
+    # `which` answers for every name a property can have, not only for identifier-like ones
+    ("which_with_any_name", 'o := {"content-type": 1, "2xx": 2, "\u3042": 3}\nc := o.bear({x: 1})\n'
+     '[c.which("content-type") == o, c.which("2xx") == o, c.which("\u3042") == o, c["content-type"], c.which("x") == c, c.which("nope"), c.which("_x")].p\n',
+     "[true, true, true, 1, true, nil, nil]\n"),
     # names are whole texts: a non-ASCII name is a different property from the ASCII name whose bytes it matches modulo 256
     ("non_ascii_names_are_not_ascii_names", 'base := {B: "inherited B", i: "inherited i"}\nchild := base.bear({a: 1})\n'
      '[child["\u3042"], child["\u0169"], child.which("\u3042"), child.which("B") == base].p\n'
